@@ -247,4 +247,19 @@ CLAIMED = {
                      "implementation over every batch schedule",
         "design_ref": "DESIGN.md section 4 (C04)",
     },
+    "C15": {
+        "text": "DriftGeom.tla computes, in doubled integers, the exact canvas coordinate of every pixel for scan "
+                "directions 0/90/180/270 degrees (centre + u*fast + v*slow), the canvas shape with the round-"
+                "half-even rule, and the points of the straight scan line described by K = 1..4 knots; TLC "
+                "checks KnotIndependent, CentreToCentre and Injective over 7 shapes (square, non-square, odd/"
+                "even) x 4 angles x 5 pad fractions and rejects the pinned-tree single-knot extent. Every case "
+                "is replayed into DriftCorrection.preprocess for 1..4 knots, 2..4 images and three KDE widths: "
+                "canvas shape, coordinates (1e-9 px), unit weight per pixel; 7 oblique angles per case are "
+                "checked relationally (knot-count independence, rotation formula), and identical stacks must "
+                "leave the knots unchanged under align_translation (upsample 1, 4, 8).",
+        "note": "Trusted: TLC arithmetic; float64 coordinate comparison; weight sums to 0.2 %. Oblique angles "
+                "are relational only.",
+        "technique": "TLA+ exact geometry checked by TLC; exported cases replayed into the implementation",
+        "design_ref": "DESIGN.md section 4 (C15)",
+    },
 }
